@@ -62,6 +62,30 @@ def EnumDecl.values (e : EnumDecl) : List (String × Int) :=
     if trimPrefix pre o == "UNSPECIFIED" then (addPrefix pre o, 0) :: numberFrom pre 1 rest
     else (pre ++ "UNSPECIFIED", 0) :: numberFrom pre 1 (o :: rest)
 
+/-! ### descriptions of the options: leading comments in SourceCodeInfo (`enumBuilder.addValue`) -/
+
+/-- the description declared for the `i`-th option -/
+def EnumDecl.descOf (e : EnumDecl) (i : Nat) : String := (e.descs[i]?).getD ""
+
+/-- one description per declared option (padded with `""`) -/
+def EnumDecl.optDescs (e : EnumDecl) : List String := (List.range e.options.length).map e.descOf
+
+/-- `isExplicitUnspecified(prefix, options[0])` -/
+def EnumDecl.isExplicit (e : EnumDecl) : Bool :=
+  match e.options with
+  | o :: _ => trimPrefix e.pfx o == "UNSPECIFIED"
+  | [] => false
+
+/-- `e.comment([]int32{2, number}, schema.Description)` for every added value with a description:
+the comment is filed under the value's NUMBER -/
+def commentsFrom : Nat → List String → List (Nat × String)
+  | _, [] => []
+  | k, d :: rest => (if d = "" then [] else [(k, d)]) ++ commentsFrom (k + 1) rest
+
+/-- the explicit zero option is value number 0, the others count from 1 -/
+def EnumDecl.comments (e : EnumDecl) : List (Nat × String) :=
+  commentsFrom (if e.isExplicit then 0 else 1) e.optDescs
+
 /-- `EnumRef.ValMap` as built by the repaired `enumTypeRef`: the implicit `prefix+"UNSPECIFIED" → 0`
 entry first, then the values. -/
 def EnumDecl.valMap (e : EnumDecl) : List (String × Int) :=
